@@ -367,6 +367,53 @@ func main() {
 		}()
 	}
 
+	// ---- a second description of the same server for the same object: a later proxy built from a
+	// string that differs from an earlier one only in the transport kind (tcp / ssl) or in the
+	// options beyond host, port and timeout describes its own endpoint, field by field ----
+	nTwice := run.Pick(80, 800)
+	for i := 0; i < nTwice; i++ {
+		m1 := drawModel(rng)
+		for oi := range m1.Opts {
+			if strings.Contains(m1.Opts[oi].val, ":") {
+				m1.Opts[oi].val = "10.0.1." + fmt.Sprint(1+i%250)
+			}
+		}
+		m2 := model{Proto: m1.Proto}
+		if m1.Proto != "udp" && rng.Intn(2) == 0 {
+			m2.Proto = map[string]string{"tcp": "ssl", "ssl": "tcp"}[m1.Proto]
+		}
+		for _, o := range m1.Opts {
+			if o.flag == "h" || o.flag == "p" || o.flag == "t" {
+				m2.Opts = append(m2.Opts, o)
+			}
+		}
+		for _, o := range drawModel(rng).Opts {
+			if o.flag != "h" && o.flag != "p" && o.flag != "t" && !strings.Contains(o.val, ":") {
+				m2.Opts = append(m2.Opts, o)
+			}
+		}
+		for n, m := range []model{m1, m2} {
+			obj := fmt.Sprintf("Verif.C18.Twice%d@%s", i, render(m, 0))
+			func() {
+				defer func() {
+					if r := recover(); r != nil {
+						st := string(debug.Stack())
+						run.Violation("panic", "addresslist:"+panicLocus(st), fmt.Sprintf("proxy for %q panicked: %v", obj, r), map[string]interface{}{"servant": obj, "panic": fmt.Sprint(r), "stack": st})
+					}
+				}()
+				run.Eval(1)
+				run.Distinct(obj)
+				eps := tars.NewServantProxy(comm, obj).Endpoints()
+				if len(eps) != 1 {
+					run.Violation("field-mismatch", "addresslist-second-description:count", fmt.Sprintf("%q (description %d of this object): %d endpoints, the string describes 1", obj, n+1, len(eps)), map[string]interface{}{"servant": obj})
+					return
+				}
+				compare(obj, *eps[0], expected(m), "addresslist-second-description")
+				run.Add("second_descriptions_compared", 1)
+			}()
+		}
+	}
+
 	// ---- hostile strings ----
 	alpha := []string{"t", "c", "p", " ", "-", "h", "\t", "1", "="}
 	var gen func(prefix string, n int)
